@@ -282,7 +282,7 @@ func checkStartupWalk(c *Ctx, rule string) {
 	// ---------- R4 startup loop ----------
 	if sw := walletFn(c, rule, "syncWithChain"); sw != nil {
 		found := 0
-		for _, fn := range Closures(sw) {
+		for _, fn := range p.regionOf(sw) {
 			var eq *ssa.Call
 			for _, call := range callsNamed(fn, "Equal") {
 				a, b := originKinds(p, call.Call.Args[0]), originKinds(p, call.Call.Args[1])
